@@ -20,21 +20,24 @@ from ..fakedist import World, enc_t, dec_t, enc_collection, dec_collection, rend
 from torcheval.metrics import synclib
 
 LEVEL = "proof"
-RULE = ("send_tensors / sync_states on k simulated ranks (k = 1..6 quick, 1..8 thorough; every sub-group of worlds ≤ 4): per-rank "
-        "tensors of equal ndim ≤ 4 with extents in {0,1,2,3} over ten dtypes, list states of 0..3 tensors per rank incl. all-empty "
+RULE = ("send_tensors / sync_states on k simulated ranks (k = 1..6 quick, 1..8 thorough; every sub-group of worlds ≤ 4 with "
+        "destination None and every member, for every state kind incl. all-empty / some-empty lists and dicts): per-rank "
+        "tensors of equal ndim ≤ 4 with extents in {0,1,2,3} over the nine dtypes gloo carries, list states of 0..3 tensors per rank incl. all-empty "
         "and some-empty, dict states with equal / unequal key sets, ints, floats, mixed collections of metrics, destination None "
         "and every member; non-trivial = distinct (entry, world, group, dst, per-rank value classes) in which at least two ranks "
         "hold values of different shape, length or key set")
 MODELLED = ["payload bytes of torch.empty dummies (a junk parameter in the model; they never surface)",
             "gloo's behaviour on a collective mismatch (hang / SIGABRT) is represented by the transport's CollectiveMismatch"]
 ASSUMPTIONS = ["all members hold the same metric / state names with the same state kind (metrics of the same type)",
-               "`rank=` of send_tensors/sync_states names a member by its group rank (that is what synclib compares it with); "
-               "a destination-addressing finding is reported only when naming the member by its global rank fails as well"]
+               "`rank=` of send_tensors/sync_states names a member by its group rank (that is what synclib compares it with and "
+               "translates with dist.get_global_rank before handing it to torch)"]
 TRUSTED_EXTRA = ["harness/fakedist.py: its rendezvous / validation rules stand in for gloo (cross-checked against real gloo, "
                  "2-4 spawned processes, on one case per distinct model trace in the thorough tier)"]
 EXTRA_LEAN_MODULES = ("TE.Driver.Sync",)
 
-DTYPE_NAMES = ["float32", "float64", "int64", "int32", "uint8", "bool", "float16", "bfloat16", "int8", "int16"]
+# every dtype the gloo backend of torch.distributed carries (int16 is rejected by gloo itself: "Invalid scalar type";
+# the fake transport rejects it the same way, see transport_selftest)
+DTYPE_NAMES = ["float32", "float64", "int64", "int32", "uint8", "bool", "float16", "bfloat16", "int8"]
 
 # ------------------------------------------------------------------ the Lean model
 
@@ -139,6 +142,14 @@ class Case:
                 + " ".join(f"r{g}={enc(self.vals[g])}" for g in self.group))
 
 
+def _syncable_line(self):
+    return (f"fn sync.syncable world={self.world} group={','.join(map(str, self.group))} "
+            + " ".join(f"r{g}={enc_collection(self.vals[g])}" for g in self.group))
+
+
+Case.syncable_line = _syncable_line
+
+
 def case_from(d: dict) -> Case:
     dec = dec_t if d["entry"] == "send" else dec_collection
     return Case(d["entry"], d["world"], list(d["group"]), d["dst"], {int(g): dec(s) for g, s in d["vals"].items()},
@@ -196,6 +207,7 @@ def oracle(c: Case, outs, status, traces=None) -> list[tuple[str, str]]:
         e = errs[r0]
         last = ((traces[c.group.index(r0)] if traces else "") or "-").split(",")[-1]
         if status in ("root-not-in-group", "root-is-not-the-member-meant"):
+            # misaddressed root (repaired in synclib by _to_global_rank): an ordinary violation if it ever shows again
             if last.startswith("bo/"):
                 site = "_sync_dtype_and_shape"; rel = "src-is-group-relative"
             elif last.startswith("go/"):
@@ -434,13 +446,14 @@ def gen_cases(rng: Rng, tier: str):
                 for kind, variant in (("tensor", "uneven"), ("list", "some-empty"), ("list", "none-empty"), ("list", "all-empty"),
                                       ("dict", "equal-keys"), ("int", "-"), ("float", "-")):
                     vals = gen_collection(rng, group, [("m", "s", kind, variant)])
-                    for d, it_ in dst_options(rng, group, world, all_dst=(kind in ("tensor", "int")))[: (None if kind in ("tensor", "int") else 1)]:
+                    for d, it_ in dst_options(rng, group, world, all_dst=True):      # None and every member
                         yield Case("sync", world, group, d, vals, f"sync:subgroup:{kind}:{variant}", it_)
             if n >= 2:
                 # each single member empty in turn: who broadcasts dtype/shape depends on it
                 for empty in group:
                     vals = {g: {"m": {"l": ([] if g == empty else [mk_tensor(rng, (2,), "float32", g)])}} for g in group}
-                    yield Case("sync", world, group, None, vals, "sync:subgroup:list:one-empty", None)
+                    for d, it_ in dst_options(rng, group, world, all_dst=True):
+                        yield Case("sync", world, group, d, vals, "sync:subgroup:list:one-empty", it_)
 
 
 def nontrivial(c: Case) -> bool:
@@ -467,15 +480,6 @@ def _shape_class(coll):
 # ------------------------------------------------------------------ evaluation
 
 
-def global_naming_also_fails(c: Case) -> bool:
-    """the member `intended` named by its GLOBAL rank instead of its group rank."""
-    if c.intended is None or c.dst == c.intended:
-        return True
-    alt = Case(c.entry, c.world, c.group, c.intended, c.vals, c.tag + ":global-naming", c.intended)
-    outs, tr, status, _w = run_fake(alt)
-    return bool(oracle(alt, outs, status, tr))
-
-
 def real_values(c: Case, outs):
     rnd = render_send if c.entry == "send" else render_sync
     return [rnd(outs[r].value) for r in c.group]
@@ -484,7 +488,9 @@ def real_values(c: Case, outs):
 def evaluate(rep: Report, cases: list[Case], stream: str, jitter: bool):
     if not cases:
         return
-    answers = [parse_answer(a) for a in model_run([c.model_line() for c in cases])]
+    raw = model_run([c.model_line() for c in cases] + [c.syncable_line() for c in cases if c.entry == "sync"])
+    answers = [parse_answer(a) for a in raw[:len(cases)]]
+    syncable = dict(zip([i for i, c in enumerate(cases) if c.entry == "sync"], [a.strip() for a in raw[len(cases):]]))
     ndis = 0
     for idx, (c, ans) in enumerate(zip(cases, answers)):
         js = (rep.seed * 7919 + idx) if (jitter and idx % 5 == 0) else None
@@ -499,8 +505,6 @@ def evaluate(rep: Report, cases: list[Case], stream: str, jitter: bool):
             rep.case(nontrivial_key=key, sample={"request": c.model_line()[:300], "model": ans["status"], "trace0": traces[0]}
                      if rep.evaluations % 499 == 0 else None)
             bad = oracle(c, outs, status, traces)
-            if any(sig.endswith("-is-group-relative") and "|dst-" in sig for sig, _ in bad) and not global_naming_also_fails(c):
-                bad = [b for b in bad if "|dst-is-group-relative" not in b[0]]
             seen = set()
             for sig, what in bad:
                 if sig in seen:
@@ -509,6 +513,16 @@ def evaluate(rep: Report, cases: list[Case], stream: str, jitter: bool):
                 rep.count("violation:" + sig)
                 rep.violation(sig, what, {"case": c.describe(), "status": status, "traces": traces,
                                           "received": real_values(c, outs) if status == "ok" else None})
+            # the hypothesis of the theorems (`Syncable`, decided by the model's checker): where it holds the real code
+            # must complete and deliver exactly what was sent (TE.C15.syncable_checker_sound, checked against the code)
+            if idx in syncable:
+                sy = syncable[idx]
+                rep.count("syncable:" + sy.replace("ok ", ""))
+                if sy not in ("ok true", "ok false"):
+                    rep.broke("driver:sync.syncable", f"unexpected answer {sy!r}", {"request": c.syncable_line()})
+                elif sy == "ok true" and (status != "ok" or bad):
+                    rep.broke("theorem-hypothesis:Syncable", f"the case satisfies Syncable but the real code gives {status} / {bad[:1]}"[:500],
+                              {"case": c.describe()})
             # correspondence with the Lean model: outcome, per-rank trace, per-rank value
             rep.traces += 1
             msg = None
@@ -571,7 +585,17 @@ def transport_selftest(rep: Report):
         dist.broadcast_object_list(lst if r != 2 else ["payload"], src=1, group=grp)
     if world_status(w.run(k, ranks=[1, 2])) != "root-is-not-the-member-meant":
         problems.append("misaddressed broadcast not detected")
-    rep.streams["transport-selftest"] = {"checks": 5, "problems": problems}
+    # a dtype gloo does not carry
+    w = World(2, timeout=3.0)
+    outs = w.run(lambda r: synclib.send_tensors(torch.ones(r + 1, dtype=torch.int16)))
+    if not all((not o.ok) and isinstance(o.value, RuntimeError) and "Invalid scalar type" in str(o.value) for o in outs):
+        problems.append(f"int16 accepted: {outs}")
+    # group rank -> global rank translation, as synclib's _to_global_rank uses it
+    w = World(4, timeout=3.0); grp = w.new_group([3, 1])
+    outs = w.run(lambda r: (dist.get_global_rank(grp, 0), dist.get_global_rank(grp, 1), dist.get_rank(grp), dist.get_world_size(grp)), ranks=[3, 1])
+    if [outs[3].value, outs[1].value] != [(3, 1, 0, 2), (3, 1, 1, 2)]:
+        problems.append(f"get_global_rank: {outs}")
+    rep.streams["transport-selftest"] = {"checks": 7, "problems": problems}
     for p in problems:
         rep.broke("fakedist:selftest", p[:400], {})
 
@@ -580,7 +604,6 @@ def gloo_validation(rep: Report, cases: list[Case], cap_ok=36, cap_fail=10):
     """one case per distinct model trace on REAL gloo: fake ok ⇒ gloo delivers the same values on every rank;
     fake mismatch ⇒ some gloo rank raises / aborts / hangs."""
     from .. import gloo_run
-    from concurrent.futures import ThreadPoolExecutor
     answers = [parse_answer(a) for a in model_run([c.model_line() for c in cases])]
     by_trace = {}
     for c, a in zip(cases, answers):
@@ -590,7 +613,19 @@ def gloo_validation(rep: Report, cases: list[Case], cap_ok=36, cap_fail=10):
     ok_cases = [c for (k, c) in strata if k[3] == "ok"]
     bad_cases = [c for (k, c) in strata if k[3] != "ok"]
     step = max(1, len(ok_cases) // cap_ok)
+    all_ok = ok_cases
     ok_cases = ok_cases[::step][:cap_ok]
+    # sub-group addressing (dst translated to a global rank, dtype/shape broadcast from a member of a sub-group,
+    # all-empty lists): always part of the sample, one per (entry, world, group, dst-kind, tag)
+    must, seen_must = [], set()
+    for c in all_ok:
+        if c.sub and len(c.group) >= 2 and (c.dst is not None or "list" in c.tag):
+            k = (c.entry, c.world, tuple(c.group), c.dst is not None, c.tag)
+            if k not in seen_must and not any(c is x for x in ok_cases):
+                seen_must.add(k)
+                must.append(c)
+    ok_cases = ok_cases + must[:24]
+    rep.count("gloo:subgroup-addressing-cases", len([c for c in ok_cases if c.sub and len(c.group) >= 2 and c.dst is not None]))
     # spread the failing strata over the distinct outcomes
     picked, seen = [], {}
     for (k, c) in strata:
@@ -613,11 +648,11 @@ def gloo_validation(rep: Report, cases: list[Case], cap_ok=36, cap_fail=10):
     for c in bad_cases:
         launches.append((c.world, [c]))
     t0 = time.time()
-    with ThreadPoolExecutor(max_workers=4) as ex:
-        results = list(ex.map(lambda wb: gloo_run.run_jobs(wb[0], [job_of(c) for c in wb[1]], timeout_s=15.0), launches))
+    results = gloo_run.run_launches([(w, [job_of(c) for c in b]) for w, b in launches],
+                                    lambda job, world: job["group"] if job["group"] is not None else list(range(world)))
     nval = ndis = 0
-    for (world, batch), res in zip(launches, results):
-        for j, c in enumerate(batch):
+    for (world, batch), row in zip(launches, results):
+        for c, (res, j) in zip(batch, row):
             outs, _tr, status, _w = run_fake(c)
             gstat = gloo_run.job_status(res, j, c.group)
             nval += 1
@@ -677,7 +712,4 @@ def search(rep: Report):
 def replay(payload) -> bool:
     c = case_from(payload["replay"]["case"])
     outs, traces, status, _w = run_fake(c)
-    bad = oracle(c, outs, status, traces)
-    if bad and all("|dst-is-group-relative" in s for s, _ in bad) and not global_naming_also_fails(c):
-        bad = []
-    return not bad
+    return not oracle(c, outs, status, traces)
